@@ -30,7 +30,7 @@ def table(rnd):
     return head + "\n".join(rows) + f"\n\nRound {rnd} totals: {n} changes; {c} caught on the first attempt, {b} reported only as a broken obligation until the stream was widened, {ms} missed (or caught too weakly) until the generator was widened.\n"
 
 
-for rnd in (2, 3, 4, 5, 6, 7, 8, 9, 10, 11, 12, 13):
+for rnd in (2, 3, 4, 5, 6, 7, 8, 9, 10, 11, 12, 13, 14):
     a, b = f"<!-- SEEDED-R{rnd}-BEGIN -->", f"<!-- SEEDED-R{rnd}-END -->"
     if a in s:
         s = s[:s.index(a) + len(a)] + "\n" + table(rnd) + s[s.index(b):]
